@@ -671,3 +671,21 @@ def is_inert_stmt(stmt):
 def effective(stmts):
     """The statements of a block without the inert ones."""
     return [s for s in stmts if not is_inert_stmt(s)]
+
+
+def string_builders(root):
+    """[(node, template)] for every ``'..'.format(..)`` call and every f-string
+    under ``root`` (nested functions excluded); template as in str_template."""
+    res = []
+    for node in walk_with_lambdas(root):
+        if isinstance(node, ast.JoinedStr) or (
+                isinstance(node, ast.Call) and isinstance(node.func, ast.Attribute)
+                and node.func.attr == 'format'):
+            # an f-string used as the format spec of another one is part of it
+            par = getattr(node, '_parent', None)
+            if isinstance(par, ast.FormattedValue) and par.format_spec is node:
+                continue
+            tpl = str_template(node)
+            if tpl is not None:
+                res.append((node, tpl))
+    return res
